@@ -29,6 +29,7 @@ import (
 	"time"
 
 	"github.com/hydraide/hydraide/app/core/hydra/swamp"
+	"github.com/hydraide/hydraide/app/core/hydra/swamp/treasure"
 	"github.com/hydraide/hydraide/app/core/hydra/swamp/vigil"
 	"github.com/hydraide/hydraide/app/core/safeops"
 	"github.com/hydraide/hydraide/app/verifhook"
@@ -533,6 +534,112 @@ func destroyProbe(srv *rig.Server, i int, kinds []bool, foreign bool) (final int
 	return swamp.VigilCount(obj), false, waited
 }
 
+// inflightProbe: a request R2 has summoned the swamp and holds a vigil; another request R1 runs
+// an operation that empties the swamp (auto-destroy: CeaseVigil + Destroy inside the swamp) and
+// so waits in Destroy's vigil drain for R2. While that drain waits, R2 performs the rest of its
+// work - the calls a gateway handler makes under its vigil - and only then ceases its vigil.
+// Every one of R2's calls must return (it is an operation in flight that has to be able to
+// finish), then Destroy must return; a third request for the same name, which waits for the
+// closing instance inside SummonSwamp, must return as well.
+var destroyOps = []string{"gateway.Delete", "CloneAndDeleteTreasuresByKeys", "CloneAndDeleteMatchingTreasures", "DeleteTreasure"}
+var inflightOps = []string{"set(CreateTreasure+Save)", "GetTreasure", "TreasureExists+CountTreasures", "DeleteTreasure(missing key)",
+	"GetAll", "second Destroy", "CreateTreasure only", "GetTreasuresByKeys+CloneTreasures"}
+
+func inflightProbe(srv *rig.Server, i int, dop, iop int, thirdRequest bool) (opHung, destroyHung, thirdHung bool, final int64) {
+	nm := fmt.Sprintf("c17/f/s%d", i)
+	ctx := context.Background()
+	if _, err := srv.GW.Set(ctx, &hydrapb.SetRequest{Swamps: []*hydrapb.SwampRequest{{
+		IslandID: 1, SwampName: nm, CreateIfNotExist: true, Overwrite: true,
+		KeyValues: []*hydrapb.KeyValuePair{{Key: "k", StringVal: sp("v")}},
+	}}}); err != nil {
+		panic(err)
+	}
+	obj, err := srv.Zeus.GetHydra().SummonSwamp(ctx, 1, rig.Name(nm))
+	if err != nil {
+		panic(err)
+	}
+	obj.BeginVigil() // R2
+	r1 := make(chan struct{})
+	go func() { // R1: empties the swamp
+		defer close(r1)
+		switch dop {
+		case 0:
+			srv.GW.Delete(ctx, &hydrapb.DeleteRequest{Swamps: []*hydrapb.DeleteRequest_SwampKeys{{IslandID: 1, SwampName: nm, Keys: []string{"k"}}}})
+		case 1:
+			obj.BeginVigil()
+			obj.CloneAndDeleteTreasuresByKeys([]string{"k"})
+			obj.CeaseVigil()
+		case 2:
+			obj.BeginVigil()
+			obj.CloneAndDeleteMatchingTreasures(swamp.BeaconTypeKey, swamp.IndexOrderAsc, 10, func(treasure.Treasure) bool { return true }, nil, 0)
+			obj.CeaseVigil()
+		default:
+			obj.BeginVigil()
+			obj.DeleteTreasure("k", false)
+			obj.CeaseVigil()
+		}
+	}()
+	// wait until R1 is inside Destroy (closing is set at its very beginning)
+	for dl := time.Now().Add(2 * time.Second); !obj.IsClosing() && time.Now().Before(dl); {
+		time.Sleep(50 * time.Microsecond)
+	}
+	time.Sleep(300 * time.Microsecond)
+	r3 := make(chan struct{})
+	if thirdRequest {
+		go func() { // R3: a new request for the name: waits for the closing instance to go away
+			defer close(r3)
+			srv.GW.Get(ctx, &hydrapb.GetRequest{Swamps: []*hydrapb.GetSwamp{{IslandID: 1, SwampName: nm, Keys: []string{"k"}}}})
+		}()
+	} else {
+		close(r3)
+	}
+	r2 := make(chan struct{})
+	go func() { // the rest of R2's work under its vigil
+		defer close(r2)
+		switch iop {
+		case 0:
+			t := obj.CreateTreasure("k2")
+			g := t.StartTreasureGuard(true)
+			t.SetContentString(g, "x")
+			t.Save(g)
+			t.ReleaseTreasureGuard(g)
+		case 1:
+			obj.GetTreasure("k")
+		case 2:
+			obj.TreasureExists("k")
+			obj.CountTreasures()
+		case 3:
+			obj.DeleteTreasure("missing", false)
+		case 4:
+			obj.GetAll()
+		case 5:
+			obj.Destroy() // returns at once: a Destroy is already running
+		case 6:
+			obj.CreateTreasure("k3")
+		default:
+			obj.GetTreasuresByKeys([]string{"k", "k2"})
+			obj.CloneTreasures()
+		}
+	}()
+	select {
+	case <-r2:
+	case <-time.After(2 * time.Second):
+		opHung = true
+	}
+	obj.CeaseVigil()
+	select {
+	case <-r1:
+	case <-time.After(2 * time.Second):
+		destroyHung = true
+	}
+	select {
+	case <-r3:
+	case <-time.After(3 * time.Second):
+		thirdHung = true
+	}
+	return opHung, destroyHung, thirdHung, swamp.VigilCount(obj)
+}
+
 // ---- hydra.SummonSwamp: the wait in the per-name summon slot queue ---------------------------
 
 type sthr struct {
@@ -616,7 +723,7 @@ var summonHangs atomic.Int64
 // cancelled; then whoever owns the section is released, again and again. Once nobody owns the
 // section and nothing is parked, every request must have returned: a request still asleep in
 // the slot queue is blocked although the summon it waited for has finished.
-func summonCase(srv *rig.Server, idx int, r *common.Rng, second, destroying bool) (n, ncancel int, hung []int, human []string) {
+func summonCase(srv *rig.Server, idx int, r *common.Rng, second, destroying bool) (n, ncancel int, hung []int, laterHung bool, human []string) {
 	nm := fmt.Sprintf("c17/q/s%d", idx)
 	h := srv.Zeus.GetHydra()
 	n = 3 + r.Intn(4)
@@ -758,13 +865,31 @@ func summonCase(srv *rig.Server, idx int, r *common.Rng, second, destroying bool
 	c.mu.Lock()
 	human = append([]string{}, c.human...)
 	c.mu.Unlock()
-	// clean-up: later summons of the name broadcast on the slot; nothing parks any more
+	// a later request for the same name must get through as well (a leaked slot - ready left
+	// true, count not decremented - blocks every later summon of the name forever)
 	c.cleanup.Store(true)
 	if closingObj != nil {
 		c.destroyHeld.Store(false)
 		closingObj.CeaseVigil()
 	}
-	for tries := 0; tries < 400; tries++ {
+	if len(hung) == 0 {
+		later := make(chan struct{})
+		go func() { h.SummonSwamp(context.Background(), 1, rig.Name(nm)); close(later) }()
+		d := 300 * time.Millisecond
+		if summonHangs.Load() < 3 {
+			d = 2 * time.Second
+		}
+		select {
+		case <-later:
+		case <-time.After(d):
+			laterHung = true
+			summonHangs.Add(1)
+			human = append(human, "a later SummonSwamp of the same name (everything before it has returned) did not return")
+		}
+	}
+	// clean-up: later summons of the name broadcast on the slot; nothing parks any more. The
+	// summons are issued from throw-away goroutines: with a wedged slot they never return.
+	for tries := 0; tries < 60; tries++ {
 		all := true
 		for _, t := range c.thrs {
 			if !t.done.Load() {
@@ -779,8 +904,8 @@ func summonCase(srv *rig.Server, idx int, r *common.Rng, second, destroying bool
 		if all {
 			break
 		}
-		h.SummonSwamp(context.Background(), 1, rig.Name(nm))
-		time.Sleep(200 * time.Microsecond)
+		go h.SummonSwamp(context.Background(), 1, rig.Name(nm))
+		time.Sleep(500 * time.Microsecond)
 	}
 	for _, t := range c.thrs {
 		t.cancel()
@@ -983,6 +1108,33 @@ func main() {
 			run.Hist("destroy_waited_for_foreign_vigil")
 		}
 	}
+	// --- 3a. operations in flight (under a vigil) while an auto-destroy drains the vigils
+	nf := 48
+	if thorough {
+		nf = 400
+	}
+	inflightHangs := 0
+	for i := 0; i < nf; i++ {
+		if inflightHangs >= 4 {
+			run.Hist("inflight_skipped_after_hangs")
+			continue
+		}
+		dop, iop := i%len(destroyOps), (i/len(destroyOps))%len(inflightOps)
+		if i >= len(destroyOps)*len(inflightOps) {
+			dop, iop = rng.Intn(len(destroyOps)), rng.Intn(len(inflightOps))
+		}
+		third := i%3 == 0
+		oh, dh, th, final := inflightProbe(srv, i, dop, iop, third)
+		if oh || dh || th {
+			inflightHangs++
+		}
+		run.Add(common.App("KInflight", common.Nat(dop), common.Nat(iop), common.Bool(oh), common.Bool(dh), common.Bool(th), common.Z(final)),
+			map[string]interface{}{"kind": "inflight-vs-destroy", "emptying_operation(R1)": destroyOps[dop], "operation_in_flight_under_vigil(R2)": inflightOps[iop],
+				"R2_operation_blocked": oh, "destroy_blocked_after_all_vigils_ceased": dh, "third_request_for_the_name": third, "third_request_blocked": th,
+				"final_counter": final}, true)
+		run.Hist("inflight_vs_destroy")
+	}
+
 	// --- 3b. requests queued in SummonSwamp's per-name slot (cancelled contexts among them)
 	ns := 70
 	if thorough {
@@ -993,10 +1145,10 @@ func main() {
 			run.Hist("summon_skipped_after_many_hangs")
 			continue
 		}
-		n, nc, hung, human := summonCase(srv, i, rng.Fork(fmt.Sprintf("summon%d", i)), i%4 == 2, i%4 == 1)
-		run.Add(common.App("KSummon", common.Nat(n), common.Nat(nc), common.Bool(len(hung) > 0)),
+		n, nc, hung, laterHung, human := summonCase(srv, i, rng.Fork(fmt.Sprintf("summon%d", i)), i%4 == 2, i%4 == 1)
+		run.Add(common.App("KSummon", common.Nat(n), common.Nat(nc), common.Bool(len(hung) > 0), common.Bool(laterHung)),
 			map[string]interface{}{"kind": "summon-queue", "requests": n, "contexts_cancelled": nc, "observed": human,
-				"requests_still_blocked_in_the_slot_queue": hung}, nc > 0)
+				"requests_still_blocked_in_the_slot_queue": hung, "later_request_for_the_name_blocked": laterHung}, nc > 0)
 		run.Hist("summon_queue")
 		if i%4 == 1 {
 			run.Hist("summon_queue_behind_destroy_in_flight")
